@@ -49,6 +49,36 @@ DEGENERATE = [
 ]
 
 
+# rows whose coefficients are all of magnitude 2^-17 (below 1e-5) next to unit-scale bounds, and rows that
+# contradict each other by 2^-18: a solver that compares with an absolute tolerance of 1e-5 takes the
+# coefficients for zero or accepts the contradiction (reported by a seeding sub-agent for the tableau simplex)
+P17 = 131072
+SCALED = [
+    {"id": "h_scale_small_coef", "sense": "min", "obj": [-1], "off": 0, "den": P17, "vars": [NN("v0")], "rows": [row([1], "le", 21)]},
+    {"id": "h_scale_small_coef_max", "sense": "max", "obj": [1, 1], "off": 0, "den": P17, "vars": [NN("v0"), NN("v1", hi=B(0, 3))],
+     "rows": [row([1, 2], "le", 21), row([-1, 0], "ge", -9)]},
+    {"id": "h_scale_contradiction", "sense": "min", "obj": [2 * P17], "off": 0, "den": 2 * P17, "vars": [NN("v0")],
+     "rows": [row([2 * P17], "ge", 2 * P17 + 1), row([2 * P17], "le", 2 * P17)]},
+    {"id": "h_scale_negative_rhs", "sense": "min", "obj": [2 * P17], "off": 0, "den": 2 * P17, "vars": [NN("v0")], "rows": [row([2 * P17], "le", -1)]},
+    {"id": "h_scale_eq_contradiction", "sense": "max", "obj": [0], "off": 0, "den": P17, "vars": [R("v0")], "rows": [row([-2], "eq", 4), row([3], "eq", -7)]},
+    {"id": "h_scale_domain", "sense": "max", "obj": [0, 0, 0], "off": 0, "den": P17, "vars": [R("v0", lo=B(0, -1), hi=B(0, 3)), R("v1", lo=B(0, -3), hi=B(0, -1)), R("v2")],
+     "rows": [row([2, 4, 0], "ge", -5), row([-4, 0, 0], "ge", -2), row([0, 1, -3], "eq", 3)]},
+]
+
+
+# model variables named like the columns the tableau path adds (the grammar allows $ names, and the
+# compiler's own $max_0 is $m + ax_0): every entry point gives each variable exactly one value, or refuses
+NAMED = [
+    {"id": "h_name_slack", "sense": "max", "obj": [1, 2], "off": 0, "den": 1, "vars": [NN("$sl_1"), NN("y")], "rows": [dict(row([1, 1], "le", 4), name="a")]},
+    {"id": "h_name_surplus", "sense": "min", "obj": [1, 2], "off": 0, "den": 1, "vars": [NN("$su_1"), NN("y")], "rows": [dict(row([1, 1], "ge", 2), name="a")]},
+    {"id": "h_name_artificial", "sense": "min", "obj": [1, 2], "off": 0, "den": 1, "vars": [NN("$a_0"), NN("y")], "rows": [dict(row([1, 1], "eq", 2), name="a")]},
+    {"id": "h_name_split", "sense": "max", "obj": [2, 1], "off": 0, "den": 1, "vars": [NN("$px"), R("x")], "rows": [row([1, 1], "le", 4), row([0, 1], "ge", -1)]},
+    {"id": "h_name_split_both", "sense": "max", "obj": [2, 1, 1], "off": 0, "den": 1, "vars": [NN("$mx"), NN("$px"), NN("y")], "rows": [row([1, 1, 1], "le", 4)]},
+    {"id": "h_name_aux_split", "sense": "min", "obj": [1, 0, 0], "off": 0, "den": 1, "vars": [R("$max_0"), R("ax_0", lo=B(0, -2), hi=B(0, 5)), R("y", lo=B(0, 1), hi=B(0, 3))],
+     "rows": [row([1, -1, 0], "ge", 0), row([1, 0, -1], "ge", 0)]},
+]
+
+
 def cycling_cases():
     """The cycling / degenerate tableaux of spec/simplex/library.ndjson (Beale, Kuhn, ...) as linear
     models: the non-basic columns are non-negative variables, each basic (slack) column is a <= row.
@@ -70,7 +100,7 @@ def cycling_cases():
 
 def gen(tier, seed):
     meta = {}
-    cases = copy.deepcopy(HAND) + copy.deepcopy(DEGENERATE) + cycling_cases()
+    cases = copy.deepcopy(HAND) + copy.deepcopy(DEGENERATE) + copy.deepcopy(SCALED) + copy.deepcopy(NAMED) + cycling_cases()
     plan = [("Cont1.cfg", 350, None), ("Mixed1.cfg", 350, None), ("Cont2.cfg", 350, None), ("Mixed2.cfg", 450, None), ("Offset1.cfg", 200, None), ("Offset2.cfg", 300, None),
             ("SimMixed3.cfg", 250 if tier == "quick" else 6000, (3 if tier == "quick" else 40, 9)),
             ("SimCont3.cfg", 150 if tier == "quick" else 3000, (3 if tier == "quick" else 30, 9))]
